@@ -126,7 +126,10 @@ def rule_filter(chk: Check, model, rid: str):
             cp = [e for e in r.events if e.kind == "call" and e.name in ("self.vertices.copy", "self.edges.copy")]
             chk.add(rid, "Graph.filter works on copies", len(cp) == 2, "Graph.filter must copy vertices and edges before dropping entries", chk.loc(fi))
             ret = r.ret
-            chk.add(rid, "Graph.filter returns a Graph of the filtered dicts", ret[0] == "obj" and ret[1] == "Graph", f"filter returns {T.show(ret)[:100]}", chk.loc(fi))
+            # ... and returns exactly those two tables: a selected vertex is kept whether or not an edge ends in it
+            okr = ret[0] == "obj" and ret[1] == "Graph" and len(vp) == 1 and len(ep) == 1 and fr.get("vertices") == vp[0].recv and fr.get("edges") == ep[0].recv
+            chk.add(rid, "Graph.filter returns a Graph of the filtered dicts", okr, f"filter returns {T.show(ret)[:200]}, expected Graph(vertices=<the copy the unselected vertices were dropped from>, "
+                    "edges=<the copy the other edges were dropped from>)", chk.loc(fi))
         else:
             # the per-node update: a record replaced with filtered inputs / info (whatever the local dict is called)
             nn = [e for e in r.events if e.kind == "store_sub" and e.term[0] == "replace" and {"inputs", "info"} <= set(dict(e.term[2]))]
@@ -137,6 +140,24 @@ def rule_filter(chk: Check, model, rid: str):
                 ii = f.get("inputs")
                 ok = ii is not None and ii[0] == "comp" and len(ii[4]) == 1 and ii[4][0][0] == "in" and ii[4][0][1][0] == "tuple" and len(ii[4][0][1][1]) == 2
             chk.add(rid, "EpisodeRecord.filter keeps only the inputs in the connection set", bool(ok), "each kept node's inputs / info.inputs must be restricted to connections", chk.loc(fi))
+
+
+def rule_experiment_filter(chk: Check, model, rid: str):
+    fi = model.func("base.ExperimentRecord.filter")
+    chk.used(fi.qualname)
+    r = SymEval(model).run_function(fi)
+    ret = r.ret
+    ok = ret[0] == "obj" and ret[1] == "ExperimentRecord"
+    if ok:
+        eps = dict(ret[2]).get("episodes", T.NONE)
+        ok = eps[0] == "comp" and eps[1] == "list" and len(eps[3]) == 1 and eps[3][0][1] == S("self.episodes") and not eps[4]
+        if ok:
+            c = eps[2]
+            el = [x for x in T.walk(c) if x[0] == "elem" and x[1] == S("self.episodes")]
+            b = model.bind_call("base.EpisodeRecord.filter", c[2], c[3]) if c[0] == "call" else {}
+            ok = c[0] == "call" and bool(el) and T.call_name(c).endswith(".filter") and c[1] == ("attr", el[0], "filter") and b.get("nodes") == S("nodes") and b.get("filter_connections") == S("filter_connections")
+    chk.add(rid, "ExperimentRecord.filter filters every episode with the same selection", bool(ok), f"ExperimentRecord.filter returns {T.show(ret)[:200]}, expected "
+            "ExperimentRecord([e.filter(nodes, filter_connections) for e in self.episodes]) on every path", chk.loc(fi))
 
 
 def run(chk: Check, model):
@@ -150,3 +171,4 @@ def run(chk: Check, model):
     rule_networkx(chk, model, "C14.sentinel")
     rule_getitem(chk, model, "C14.index")
     rule_filter(chk, model, "C14.filter")
+    rule_experiment_filter(chk, model, "C14.filter")
